@@ -86,3 +86,21 @@ Section MapLoops.
   (* pattern ANY: the loop returns as soon as an entry satisfies p *)
   Definition loop_any (p : K * V -> bool) (entries : list (K * V)) : bool := existsb p entries.
 End MapLoops.
+
+(* ------------------------------------------------------------------ (3) chroma's matchRules *)
+(* github.com/alecthomas/chroma/v2 regexp.go, used by d2svg for code blocks:
+     for i, rule := range rules {
+         match, err := rule.Regexp.FindRunesMatchStartingAt(text, pos)   // MatchTimeout = 250ms
+         if match != nil && err == nil && match.Index == pos { return i, rule, ... } }
+   a regexp2 match that exceeds its wall-clock budget returns an error, which is treated as "this rule
+   does not match".  [m r] is what rule r matches at the position, [timed_out i] whether the attempt
+   on the i-th rule ran out of its 250 ms. *)
+Fixpoint match_rules {R T} (m : R -> option T) (timed_out : nat -> bool) (i : nat) (rules : list R)
+  : option (nat * T) :=
+  match rules with
+  | [] => None
+  | r :: rs => match m r with
+               | Some t => if timed_out i then match_rules m timed_out (S i) rs else Some (i, t)
+               | None => match_rules m timed_out (S i) rs
+               end
+  end.
